@@ -143,6 +143,9 @@ type GPath struct {
 	Origin string  `json:"origin,omitempty"`
 	Elems  []PElem `json:"elems,omitempty"`
 	Legacy bool    `json:"legacy,omitempty"`
+	// Stray: a structured path additionally carries deprecated string elements (which every
+	// reader ignores when elem is present: "gracefully handled when PathElem doesn't exist").
+	Stray bool `json:"stray,omitempty"`
 }
 
 func names(p []string) []PElem {
@@ -174,6 +177,9 @@ func (g *GPath) proto() *pb.Path {
 			}
 		}
 		p.Elem = append(p.Elem, pe)
+	}
+	if g.Stray && len(p.Elem) > 0 {
+		p.Element = []string{"stray", "x"}
 	}
 	return p
 }
